@@ -4,6 +4,12 @@
 #  2. determinism: for every harness, N runs per process in 33 processes at GOMAXPROCS 1/4/16
 #     with full tracing; all run logs (schedule hash, steps, simulated time, trace hash,
 #     violation class) must be identical.
+#  3. instrumenter rules for constructs the pinned tree does not use (sync.Cond, embedded
+#     mutexes, RWMutex.TryLock, context.AfterFunc, method values): Z00 passes, and reports the
+#     planted defect with VERIF_ZZ_BUGGY=1.
 N=${1:-40}
 /verif/bin/check --fidelity | tail -1
-for id in $(/verif/bin/check --list); do /verif/bin/check $id --selftest $N | tail -1; done
+for id in $(/verif/bin/check --list) Z00; do /verif/bin/check $id --selftest $N | tail -1; done
+/verif/bin/check Z00 --budget 10 --no-evidence | grep -c VIOLATION | sed 's/^/Z00 clean: violations=/'
+VERIF_ZZ_BUGGY=1 /verif/bin/check Z00 --budget 10 --no-evidence | grep -m1 "class=" | sed 's/^/Z00 planted defect: /'
+
